@@ -35,6 +35,21 @@ def counter_cases(rng, thorough):
                         c = rng.rng(0, n)
                         upd = rng.choice(['m', 'u'])
                         yield 'hh %s/%d/%s t.0.0x%x %s.0.%s m.0.%s F.0 #counter/%s/wrap2^%d/k%d' % (fam, ol, key, t, upd, m[:c].hex() or '-', m[c:].hex() or '-', fam, wrap.bit_length() - 1, k)
+        # the high counter word must not survive any way of starting over: after the counter has passed (or been preset beyond) the
+        # word boundary the context is reset / re-keyed / finalize-reset / finalize-reset-with-key / cloned-then-reset and reused
+        for wrap in (1 << W, 1 << (2 * W)):
+            for how in ('r', 'k', 'f', 'fk', 'cr'):
+                for pre in ((wrap - 1, bs + 5), (wrap + 3 * bs, 0), (wrap - bs, bs + 1)) + (((wrap + (1 << (W + 3)) + 7 * bs) % (1 << (2 * W)), 17),) * (1 if thorough else 0):
+                    t, n1 = pre
+                    t %= 1 << (2 * W)      # the counter has 2W bits
+                    ol = rng.choice([1, maxo // 2, maxo])
+                    key1 = rng.data(rng.choice([1, maxk])) if rng.below(2) else '-'
+                    key2 = rng.data(rng.choice([1, maxk // 2, maxk]))
+                    n2 = rng.choice([0, 1, bs - 1, bs, bs + 1, 2 * bs + 3])
+                    mid = {'r': 'r.0', 'k': 'k.0.%s' % key2, 'f': 'f.0', 'fk': 'fk.0.%s' % key2, 'cr': 'c.0.1 r.1'}[how]
+                    who = 1 if how == 'cr' else 0
+                    variant = '%s/%d/%s' % (fam, ol, key1)
+                    yield 'hh %s t.0.0x%x m.0.%s %s m.%d.%s F.%d #counter/%s-reuse-%s/wrap2^%d/k%d' % (variant, t, rng.data(n1), mid, who, rng.data(n2), who, fam, how, wrap.bit_length() - 1, n1)
         # typed contexts too
         for bits in ((224, 256, 384, 512) if fam == 'b2b' else (224, 256)):
             for k in (1, bs, bs + 1):
@@ -43,23 +58,32 @@ def counter_cases(rng, thorough):
 
 
 def check_counter(line, toks):
+    """sequential model of a BLAKE2 context whose byte counter may have been preset (hook): per object (key, bytes, counter preset)"""
     body = line.split(' #')[0]
     f = body.split()
     p = f[1].split('/')
     big = p[0].startswith('b2b')
     typed = p[0].endswith('t')
     ol = (int(p[1]) + 7) // 8 if typed else int(p[1])
-    key = expand(p[2])
-    t = None; msg = b''; outs = []
+    objs = {0: [expand(p[2]), b'', None]}       # key, message since reset, counter preset (None = natural)
+    outs = []
     for s in f[2:]:
         q = s.split('.')
+        ob = objs[int(q[1])]
         if q[0] == 't':
-            t = int(q[2], 16)
+            ob[2] = int(q[2], 16)
         elif q[0] in ('m', 'u'):
-            msg += expand(q[2])
-        elif q[0] in ('F', 'f'):
-            outs.append(o.blake2_pure(big, ol, key, msg, t_preset_after_key=t).hex())
-            key = b''; msg = b''; t = None   # finalize_reset -> fresh unkeyed context, counter 0
+            ob[1] += expand(q[2])
+        elif q[0] in ('F', 'f', 'fk'):
+            outs.append(o.blake2_pure(big, ol, ob[0], ob[1], t_preset_after_key=ob[2]).hex())
+            ob[0] = expand(q[2]) if q[0] == 'fk' else b''     # finalize_reset -> fresh unkeyed context, counter 0
+            ob[1] = b''; ob[2] = None
+        elif q[0] == 'r':
+            ob[0] = b''; ob[1] = b''; ob[2] = None
+        elif q[0] == 'k':
+            ob[0] = expand(q[2]); ob[1] = b''; ob[2] = None
+        elif q[0] == 'c':
+            objs[int(q[2])] = list(ob)
     if toks != outs:
         return [('C20:blake2-counter:value-mismatch', 'expected %s got %s' % (' '.join(outs)[:80], ' '.join(toks)[:80]))]
     return []
